@@ -117,7 +117,7 @@ CLAIMED = {
     "C04": dict(
         text="Coq theorems for any number of vectors of any length: the double loop over the priority list read from the "
              "source equals 'highest-precedence flag present, MISSING if none'; upper bound, attainment, masked/non-flag "
-             "ignored, permutation / duplication / grouping invariance. Tied by regenerating the priority table from the "
+             "ignored, permutation / duplication / grouping invariance, monotonicity in the set of vectors, identity on a single flag vector and idempotence. Tied by regenerating the priority table from the "
              "AST and by model/implementation correspondence on exhaustive small columns.",
         design_ref="DESIGN.md §8 C04",
         technique="Coq proof (induction over vectors, case analysis over the generated priority list) + translator + correspondence",
